@@ -46,10 +46,24 @@ T = [
 ("C28",1,"core","TestSeedC28_ConcatSharedBufferEqualVsCompare","two concats sharing one buffer compared with Equal","missed","C28.6 (added): Equal decides with the lengths"),
 ("C28",2,"core","TestSeedC28_ExceptionValueOrdersAsString","an exception value compared against strings/dates","caught","C28.2 Order() table and C28.4"),
 ("C42",1,"builtin","TestSeedC42_ReturnFromEnclosingFunction","a block that returns from the enclosing function after doing updates","caught","C42.2 scenario BlockReturn"),
+("C02",1,"db19","TestDemoSnapshotStableAcrossCommit","a read transaction started before another transaction's commit reads again afterwards","caught","C02.2 K12 (LayeredOnto writes the published Meta)"),
+("C02",2,"db19","TestDemoSnapshotStableAcrossColumnRename","a transaction started before alter rename of an indexed column looks at the table's indexes again","caught","C02.2 K12 (stores into index definitions obtained from Hamt.Get)"),
+("C15",1,"util/hamt","TestDemoPullUpKeepsOldVersions","delete of a key whose slot has a child node with >=2 values while an older frozen version is still in use","caught","C15.1 node written without fresh/dup/generation fact"),
+("C15",2,"util/hamt","TestDemoChainCycles","a chain with >=2 chunks and a persist cycle that modifies no item, then reading back from the returned offset","MISSED (out of reach)","none: which chunk offset WriteChain returns is chain content, declared not decided"),
+("C16",1,"db19","TestDemoPersistKeepsSizeNeutralChanges","a same-length update as the only unpersisted change of a table, then persist","missed","C16.5 (added): persist asks Overlay.Modified"),
+("C16",2,"db19","TestDemoMergeQueueAcrossSchemaChange","two commits queued at once whose transactions started on either side of a schema change","missed","C16.6 (added): the drain loop keeps every received commit"),
+("C17",1,"db19","TestDemoC17_1","an abort sent while a message of the same transaction is still queued","caught","C17.2 message carries the id of its own transaction"),
+("C17",2,"util/queue","TestDemoC17_2","two queued id-0 messages, the later one with higher priority","missed","C17.6 (added): a later message is selected only on the true edge of isOldest"),
+("C34",1,"db19","TestDemoC34_1","a client fetch landing exactly on the threshold millisecond","caught","C34.5 same threshold on server and client"),
+("C34",2,"db19","TestDemoC34_2","timestamp ahead of the wall clock at tick time","caught","C34.3 ticker stores only on the later-than-timestamp edge"),
+("C19",1,"db19","TestDemoC19_1","a requested time exactly equal to a state's time","caught","C19.2 stateAsof stops exactly on t <= asof (evaluated)"),
+("C19",2,"db19","TestDemoC19_2","multi-chunk store, next state in a later chunk at a lower in-chunk position","missed","C19.3 (added): chunk loop re-assigns the in-chunk bound every iteration"),
+("C14",1,"core","TestDemoC14_1","a record whose total length is exactly 65536","MISSED (out of reach)","none: record header size classes are declared not decided (boundary arithmetic)"),
+("C14",2,"dbms/mux","TestDemoC14_2","integers with |i| >= 2^62 on the wire","missed","C14.3 (added): zig-zag prologue/epilogue folded on boundary values"),
 ("C42",2,"builtin","TestSeedC42_EndedByBlockThenThrow","a block that completes the transaction itself and then throws","caught","C42.2 scenarios 'already ended'"),
 ]
 conf = {}
-for log in ("/tmp/seed/confirm.log", "/tmp/seed/confirm2.log"):
+for log in ("/tmp/seed/confirm.log", "/tmp/seed/confirm2.log", "/tmp/seed/confirm3.log", "/tmp/seed/confirm4.log"):
     if not os.path.exists(log): continue
     cur = None
     for l in open(log):
